@@ -266,6 +266,21 @@ def run(tier, seed, drv):
         run_case(res, drv, ident, secret, chunks, script)
         res.nontriv([stream[:60].hex(), cuts[:8]])
         res.sample(script, limit=4)
+    # bursts: several hundred complete frames in ONE read (a coalesced read after a stall), alone and with the broker's
+    # greeting in front - beyond any per-call batch size; every class hands over every frame
+    import struct as _struct
+
+    def _enc(op, body):
+        return _struct.pack('!iB', 5 + len(body), op) + body
+    for count in ([257, 600] if tier == 'quick' else [257, 513, 1025, 5000]):
+        frames = [_enc(3, b'\x01a\x01c' + b'm%d' % i) if i % 7 else _enc(0, b'e%d' % i) for i in range(count)]
+        for head in (b'', _enc(1, b'\x02hp\x01\x02\x03\x04')):
+            stream = head + b''.join(frames)
+            for chunks in ([stream], [stream[:len(stream) // 2 + 3], stream[len(stream) // 2 + 3:]]):
+                script = {'ident': 'me', 'secret': 's', 'chunks': [hexin(c) for c in chunks], 'burst': count}
+                run_case(res, drv, 'me', 's', chunks, script)
+        res.note('burst')
+        res.nontriv(['burst', count])
     res.assumptions += [
         'the recording subclasses override the application hooks (on_error/on_publish/connection_ready/protocol_error) and otherwise call the real implementation',
         'the client ident is at most 255 UTF-8 bytes (struct.pack would raise otherwise)',
